@@ -68,9 +68,27 @@ Proof.
 Qed.
 
 
+Lemma hdr_ins_info : forall fx i f k nid n' p nid', k <> [] -> ins_t fx (TN i [] f) k true nid = (n', p, nid') -> t_info n' = i.
+Proof.
+  intros. cbn [ins_t] in H0. destruct k; [congruence|]. simpl in H0.
+  destruct (ins_f fx f (c2i b) k nid) as [[[f' p0] nid0]|]; inversion H0; reflexivity.
+Qed.
+
+Lemma upd_root_info : forall n p g, p <> [] -> t_info (upd_t n p g) = t_info n.
+Proof. destruct n, p; simpl; congruence. Qed.
+
+Lemma rel_info : forall p n hdr, match rel_t n p hdr with Some n' => t_info n' = t_info n | None => True end.
+Proof.
+  destruct p as [|j p]; intros n hdr; destruct n as [i s f]; cbn [rel_t].
+  - destruct (releasable i f hdr); auto.
+  - destruct (rel_f f j p) as [[f' b]|]; auto. destruct b; auto. destruct (releasable i f' hdr); auto.
+Qed.
+
 Record Inv (t : trie) (d : dict) : Prop := {
   inv_wf : all_t wfi (t_root t);
   inv_hdr : t_seg (t_root t) = [];
+  inv_hval : n_val (t_info (t_root t)) = None;
+  inv_key : forall q, q <> [] -> c_val (obs_t (t_root t) q) <> None -> c_key (obs_t (t_root t) q) = Some q;
   inv_obs : forall q, q <> [] -> c_val (obs_t (t_root t) q) = d_get d q /\
                                  c_rem (obs_t (t_root t) q) = false /\
                                  (c_val (obs_t (t_root t) q) <> None -> c_rc (obs_t (t_root t) q) = 1);
@@ -82,6 +100,7 @@ Lemma inv_init : Inv trie_init [].
 Proof.
   constructor; simpl; auto.
   - split; [|exact I]. unfold wfi. simpl. auto.
+  - intros. destruct q; [congruence|]. simpl in *. congruence.
   - intros. destruct q; [congruence|]. simpl. split; [reflexivity|]. split; [reflexivity|congruence].
   - constructor.
 Qed.
@@ -90,13 +109,15 @@ Qed.
 Lemma put_refines : forall fx t d k v, Inv t d -> kvalid k ->
   Inv (fst (do_put fx t k v)) (d_put d k v).
 Proof.
-  intros fx t d k v HI [Hne Hnz]. destruct HI as [Hwf Hhdr Hobs Hlen Hnd].
+  intros fx t d k v HI [Hne Hnz]. destruct HI as [Hwf Hhdr Hhv Hkey Hobs Hlen Hnd].
   unfold do_put. destruct (ins_t fx (t_root t) k true (t_next t)) as [[r1 p] nid] eqn:I.
   destruct (ins_ok fx _ _ (le_n _) _ _ _ _ _ _ Hwf Hnz I) as [O1 [L1 W1]].
   assert (Hs1 : t_seg r1 = []).
   { destruct (t_root t) as [i0 s0 f0]. simpl in Hhdr. subst s0. eapply hdr_ins; eauto. }
   assert (Hp : p <> []).
   { destruct r1 as [i1 s1 f1]. simpl in Hs1. subst s1. eapply hdr_look; eauto. }
+  assert (Hi1 : n_val (t_info r1) = None).
+  { destruct (t_root t) as [i0 s0 f0]. simpl in Hhdr. subst s0. rewrite (hdr_ins_info _ _ _ _ _ _ _ _ Hne I). exact Hhv. }
   destruct (upd_ok _ _ (le_n _) _ _ L1) as [tn [G1 [G2 [G3 [G4 G5]]]]].
   rewrite G1. destruct tn as [i sg fc]. simpl in G2.
   destruct (Hobs k Hne) as [Ok1 [Ok3 Ok2]]. rewrite <- O1 in Ok1, Ok2, Ok3. rewrite <- G2 in Ok1, Ok2, Ok3.
@@ -108,6 +129,10 @@ Proof.
     simpl. constructor; simpl.
     + apply G5; auto. simpl. intros [A [B C]]. unfold wfi. simpl. repeat split; auto; congruence.
     + rewrite upd_seg. exact Hs1.
+    + rewrite upd_root_info by auto. exact Hi1.
+    + intros q Hq. rewrite G4. destruct (list_eq_dec Nat.eq_dec q k) as [e|e].
+      * subst q. reflexivity.
+      * rewrite O1. apply Hkey; auto.
     + intros q Hq. rewrite G4. simpl. destruct (list_eq_dec Nat.eq_dec q k) as [e|e].
       * subst q. simpl. destruct (key_dec k k); [|congruence]. split; [reflexivity|]. split; [reflexivity|]. intros _. apply Ok2. congruence.
       * rewrite O1. destruct (key_dec k q); [congruence|]. rewrite d_get_rm_other by auto. apply Hobs; auto.
@@ -122,6 +147,10 @@ Proof.
     + apply G5; auto. unfold wfi, g2, g1, set_rc, set_removed, set_kv. simpl. intros [A [B C]].
       repeat split; auto; congruence.
     + rewrite upd_seg. exact Hs1.
+    + rewrite upd_root_info by discriminate. exact Hi1.
+    + intros q Hq. fold g2. rewrite G4. destruct (list_eq_dec Nat.eq_dec q k) as [e|e].
+      * subst q. reflexivity.
+      * rewrite O1. apply Hkey; auto.
     + intros q Hq. fold g2. rewrite G4. destruct (list_eq_dec Nat.eq_dec q k) as [e|e].
       * subst q. unfold g2, g1, set_rc, set_removed, set_kv, core_of. simpl.
         destruct (key_dec k k); [|congruence]. split; [reflexivity|]. split; [reflexivity|]. intros _. rewrite Wr0. reflexivity.
@@ -156,7 +185,7 @@ Lemma rm_refines : forall fx t d k, f_rm fx = true -> Inv t d -> kvalid k ->
   snd (fst (do_rm fx t k)) = (match d_get d k with Some _ => TRIE_QB_TRUE | None => TRIE_QB_FALSE end) /\
   Inv (fst (fst (do_rm fx t k))) (d_rm d k).
 Proof.
-  intros fx t d k Hfx HI [Hne Hnz]. pose proof HI as HI0. destruct HI as [Hwf Hhdr Hobs Hlen Hnd].
+  intros fx t d k Hfx HI [Hne Hnz]. pose proof HI as HI0. destruct HI as [Hwf Hhdr Hhv Hkey Hobs Hlen Hnd].
   destruct (Hobs k Hne) as [Ok1 [Ok3 Ok2]].
   unfold do_rm, lookup. rewrite Hfx. destruct k as [|b k0] eqn:Ek; [congruence|]. rewrite <- Ek in *. clear Ek b k0.
   destruct (look_t (t_root t) k true) as [p|] eqn:L.
@@ -188,14 +217,21 @@ Proof.
   assert (W2 : all_t wfi (upd_t (t_root t) p G)).
   { apply G5; auto. unfold wfi, G, set_removed, set_kv, set_rc. simpl. intros [A [B C]]. repeat split; auto.
     rewrite Hg0r. reflexivity. }
-  pose proof (rel_ok p _ true W2) as R. unfold release. fold G.
+  pose proof (rel_ok p _ true W2) as R. pose proof (rel_info p (upd_t (t_root t) p G) true) as RI.
+  unfold release. fold G.
   destruct (rel_t (upd_t (t_root t) p G) p true) as [r'|].
   2:{ destruct R as [_ X]. discriminate. }
   destruct R as [R1 [R2 R3]].
   rewrite <- Ok1. simpl. split; auto.
+  assert (Hp : p <> []).
+  { destruct (t_root t) as [i1 s1 f1]. simpl in Hhdr. subst s1. eapply hdr_look; eauto. }
   constructor; simpl.
   - exact R2.
   - rewrite R3, !upd_seg. exact Hhdr.
+  - rewrite RI. rewrite upd_root_info by auto. exact Hhv.
+  - intros q Hq. rewrite R1. rewrite G4. destruct (list_eq_dec Nat.eq_dec q k) as [e|e].
+    + simpl. congruence.
+    + apply Hkey; auto.
   - intros q Hq. rewrite R1. rewrite G4. destruct (list_eq_dec Nat.eq_dec q k) as [e|e].
     + subst q. simpl. rewrite d_get_rm_same by auto. split; [reflexivity|]. split; [reflexivity|congruence].
     + rewrite d_get_rm_other by auto. apply Hobs; auto.
